@@ -59,6 +59,14 @@ func init() {
 			return e.ts.Bool(ok && t.IsConst())
 		},
 
+		zzPath + ".And":     func(e *Exec, fn *ssa.Function, a []Value) Value { return e.ts.And(a[0].(*Term), a[1].(*Term)) },
+		zzPath + ".Or":      func(e *Exec, fn *ssa.Function, a []Value) Value { return e.ts.Or(a[0].(*Term), a[1].(*Term)) },
+		zzPath + ".Not":     func(e *Exec, fn *ssa.Function, a []Value) Value { return e.ts.Not(a[0].(*Term)) },
+		zzPath + ".Implies": func(e *Exec, fn *ssa.Function, a []Value) Value { return e.ts.Implies(a[0].(*Term), a[1].(*Term)) },
+		zzPath + ".IteU64": func(e *Exec, fn *ssa.Function, a []Value) Value {
+			return e.ts.Ite(a[0].(*Term), a[1].(*Term), a[2].(*Term))
+		},
+
 		// ----- bytes / strings -----
 		"bytes.Equal": func(e *Exec, fn *ssa.Function, a []Value) Value {
 			return e.bytesEq(e.sliceBytes(a[0].(SliceV)), e.sliceBytes(a[1].(SliceV)))
@@ -128,6 +136,16 @@ func init() {
 		"math/bits.Len64": func(e *Exec, fn *ssa.Function, a []Value) Value { return e.bitsLen(a[0].(*Term)) },
 		"math/bits.Len32": func(e *Exec, fn *ssa.Function, a []Value) Value { return e.bitsLen(a[0].(*Term)) },
 		"math/bits.Len":   func(e *Exec, fn *ssa.Function, a []Value) Value { return e.bitsLen(a[0].(*Term)) },
+
+		"github.com/CrowdStrike/csproto.SizeOfVarint": func(e *Exec, fn *ssa.Function, a []Value) Value {
+			// summary of (bits.Len64(v|1)+6)/7, validated against the real body by selftest
+			v := a[0].(*Term)
+			res := e.ts.Const(64, 10)
+			for n := 9; n >= 1; n-- {
+				res = e.ts.Ite(e.ts.Cmp(OpUlt, v, e.ts.Const(64, uint64(1)<<uint(7*n))), e.ts.Const(64, uint64(n)), res)
+			}
+			return res
+		},
 
 		// ----- errors / fmt -----
 		"errors.Is":   inErrorsIs,
